@@ -67,6 +67,7 @@ def design_mc(ctx):
         out.append(_mc(ctx, "p4", 4, 2, 2, "BS_1_1", ["ZeroWhenSame", "DPIsBruteForce"]))
         out.append(_mc(ctx, "multi", 2, 2, 3, "BS_01_01_01", ["MultiwaySums", "ZeroWhenSame"]))
         out.append(_mc(ctx, "multi3", 2, 3, 3, "BS_12_1_01", ["MultiwaySums", "ZeroWhenSame"]))
+        out.append(_mc(ctx, "multi4", 2, 4, 3, "BS_1_1_12", ["MultiwaySums"]))
     return out
 
 
@@ -462,9 +463,16 @@ def _py_poly_switch_units(F, blk, p):
     return (min(prev.values()) if prev else 0), len(cols)
 
 
+def _py_ham_dg(F, blk, p):
+    from itertools import permutations
+    ham = min(sum(1 for s in blk for k in range(p) if F[1][s]["a"][k] != F[0][s]["a"][pi[k]]) for pi in permutations(range(p)))
+    dg = sum(1 for s in blk if sorted(F[0][s]["a"]) != sorted(F[1][s]["a"]))
+    return ham, dg
+
+
 def _single_match_class(events, p, key):
     """do all rows that deviate from the definition deviate by (P-1) units per block with exactly one
-    genotype-matching variant?"""
+    genotype-matching variant?  (classification of a TLC verdict, not a verdict)"""
     dev, explained = 0, 0
     for e in events:
         if e.get("ev") != "Pair" or e["p"] <= 2:
@@ -472,12 +480,16 @@ def _single_match_class(events, p, key):
         blocks = _py_blocks(e["F"])
         if key == "lrow":
             m = max((len(b) for b in blocks), default=0)
-            cands = [b for b in blocks if len(b) == m]
-            vals = [_py_poly_switch_units(e["F"], b, p) for b in cands]
-            if any(e["lrow"]["sw"] == v for v, _ in vals) or not cands:
+            cands = []
+            for b in blocks:
+                if len(b) == m:
+                    ham, dg = _py_ham_dg(e["F"], b, p)
+                    if (ham, dg) == (e["lrow"]["ham"], e["lrow"]["dg"]):
+                        cands.append(_py_poly_switch_units(e["F"], b, p))
+            if not blocks or any(e["lrow"]["sw"] == v for v, _ in cands):
                 continue
             dev += 1
-            explained += any(e["lrow"]["sw"] == v + (p - 1) and nm == 1 for v, nm in vals)
+            explained += any(e["lrow"]["sw"] == v + (p - 1) and nm == 1 for v, nm in cands)
         else:
             vals = [_py_poly_switch_units(e["F"], b, p) for b in blocks]
             want = sum(v for v, _ in vals)
